@@ -1,5 +1,6 @@
 (* Properties/C02.v — Versioning: every live version stays addressable and latest is newest (M-META). *)
 From Verif Require Import Bytes Codec Md5 Meta MetaBasics MetaWitness.
+From Verif Require Import MetaRows1 MetaRows2 MetaRows3 MetaRows4 MetaRows5 MetaRows6 MetaRows7 MetaRows8 MetaRows9.
 
 (* at most one current version per key, version ids unique per key, in every reachable state *)
 Theorem C02_reachable_unique_latest : forall ops,
@@ -25,3 +26,110 @@ Theorem C02_promotion_witness :
   exists lm, op_get (fst (run promo_history)) wb wk (Some VNull) = RObj VNull (mk_md5 cC) 8 lm None (Some cC).
 Proof. exact (conj promo_reads_B promo_null_survives). Qed.
 Print Assumptions C02_promotion_witness.
+
+(* ================= row-level theorems (Proofs/MetaRows1..9) ================= *)
+
+(* VERSION PERSISTENCE, one step from ANY state satisfying the row invariant: the non-null version VId n of
+   (b,k), whose row is r, survives every operation — same row id, ETag, size, delete-marker flag, content type,
+   creation time and the SAME part rows — except exactly:
+   (a) DeleteObject of (b,k) by that very version id;
+   (b) AppendObject on (b,k) while the bucket is not Enabled and r is the current row
+       (known finding C13-append-in-place: the append rewrites r in place);
+   (c) key-only DeleteObject of (b,k) while the bucket's versioning is Unset and r is the current row
+       (reachable only after Enabled -> Unset; see C02_unset_delete_destroys_version below). *)
+Theorem C02_version_persists : forall i hist s o b k n r,
+  (NoDup (map o_id (objs s)) /\ (forall x, In x (objs s) -> (o_id x < next_id s)%N)) /\
+  (unique_ok s = true /\ parts_unique_ok s = true) ->
+  find_version s b k (VId n) = Some r ->
+  match o with
+  | ODel b' k' v _ =>
+      bytes_eqb b' b && bytes_eqb k' k &&
+      match resolve_vref v with
+      | Some v' => vid_eqb v' (VId n)
+      | None => o_latest r && match option_map b_ver (find_bucket s b) with Some VUnset => true | _ => false end
+      end
+  | OApp b' k' _ _ =>
+      bytes_eqb b' b && bytes_eqb k' k && o_latest r &&
+      match option_map b_ver (find_bucket s b) with Some VEnabled | None => false | Some _ => true end
+  | _ => false
+  end = false ->
+  exists r', find_version (fst (step i hist s o)) b k (VId n) = Some r' /\
+    o_id r' = o_id r /\ o_etag r' = o_etag r /\ o_size r' = o_size r /\ o_dm r' = o_dm r /\
+    o_ctype r' = o_ctype r /\ o_created r' = o_created r /\
+    obj_parts (fst (step i hist s o)) (o_id r') = obj_parts s (o_id r).
+Proof. exact step_version_persists_out. Qed.
+Print Assumptions C02_version_persists.
+
+(* … over histories, with a purely syntactic side condition: once a non-null version exists in a bucket that is
+   Enabled or Suspended, it stays addressable with unchanged ETag/size/parts through ANY continuation that
+   contains no delete of that very version id, no append to that key, and does not set the bucket's versioning
+   back to Unset.  Puts, copies, multipart completes, key-only deletes, deletes of other versions, toggling
+   Enabled/Suspended, and everything on other keys/buckets are all allowed. *)
+Theorem C02_version_persists_history : forall ops mid b k n r st,
+  Forall (fun o => match o with
+    | ODel b' k' v _ => b' = b /\ k' = k -> resolve_vref v <> Some (VId n)
+    | OApp b' k' _ _ => ~ (b' = b /\ k' = k)
+    | OVer b' v => b' = b -> v <> VUnset
+    | _ => True
+    end) mid ->
+  find_version (fst (run ops)) b k (VId n) = Some r ->
+  option_map b_ver (find_bucket (fst (run ops)) b) = Some st -> st <> VUnset ->
+  exists r', find_version (fst (run (ops ++ mid))) b k (VId n) = Some r' /\
+    o_id r' = o_id r /\ o_etag r' = o_etag r /\ o_size r' = o_size r /\ o_dm r' = o_dm r /\
+    o_ctype r' = o_ctype r /\ o_created r' = o_created r /\
+    obj_parts (fst (run (ops ++ mid))) (o_id r') = obj_parts (fst (run ops)) (o_id r).
+Proof. exact run_version_keeps_out. Qed.
+Print Assumptions C02_version_persists_history.
+
+(* KEY-ONLY DELETE in an Enabled or Suspended bucket, from ANY state: if it is acknowledged, the answer is a
+   delete marker with the fresh version id, and that marker (a new row) is the current version of the key … *)
+Theorem C02_key_only_delete_creates_marker : forall i hist s b k cr s' x st,
+  option_map b_ver (find_bucket s b) = Some st -> st <> VUnset ->
+  step i hist s (ODel b k VRNone cr) = (s', x) -> (forall e, x <> RErr e) ->
+  x = RDel (Some (VId i)) true /\
+  exists m, find_latest s' b k = Some m /\ o_vid m = Some (VId i) /\ o_dm m = true /\ o_id m = next_id s.
+Proof. exact delete_marker_out. Qed.
+Print Assumptions C02_key_only_delete_creates_marker.
+
+(* … and it destroys no data of any non-null version: in the Suspended state only the null version can be
+   replaced *)
+Theorem C02_key_only_delete_keeps_versions : forall i hist s b k cr st n r,
+  (NoDup (map o_id (objs s)) /\ (forall x, In x (objs s) -> (o_id x < next_id s)%N)) /\
+  (unique_ok s = true /\ parts_unique_ok s = true) ->
+  option_map b_ver (find_bucket s b) = Some st -> st <> VUnset ->
+  find_version s b k (VId n) = Some r ->
+  exists r', find_version (fst (step i hist s (ODel b k VRNone cr))) b k (VId n) = Some r' /\
+    o_id r' = o_id r /\ o_etag r' = o_etag r /\ o_size r' = o_size r /\ o_dm r' = o_dm r /\
+    o_ctype r' = o_ctype r /\ o_created r' = o_created r /\
+    obj_parts (fst (step i hist s (ODel b k VRNone cr))) (o_id r') = obj_parts s (o_id r).
+Proof. exact delete_keeps_versions_out. Qed.
+Print Assumptions C02_key_only_delete_keeps_versions.
+
+(* exception (c) is real in the model: Enabled, put (version v2), Unset, key-only delete: v2 is gone *)
+Theorem C02_unset_delete_destroys_version :
+  snd (run [OMb B"bkt1"; OVer B"bkt1" VEnabled; OPut B"bkt1" B"k1" B"AAAAAAAA" CRNone; OVer B"bkt1" VUnset;
+            ODel B"bkt1" B"k1" VRNone CRNone; OGet B"bkt1" B"k1" (VROp 2)]) =
+  [ROk; ROk; RPut (VId 2) (mk_md5 B"AAAAAAAA"); ROk; RDel None false; RErr NoSuchKey].
+Proof. exact unset_delete_destroys_version. Qed.
+Print Assumptions C02_unset_delete_destroys_version.
+
+(* the hypotheses are satisfiable, on a continuation that toggles versioning, overwrites, deletes by key and
+   deletes another version *)
+Example C02_ex_persist_hyps : exists r,
+  find_version (fst (run [OMb wb; OVer wb VEnabled; OPut wb wk cA CRNone])) wb wk (VId 2) = Some r /\
+  option_map b_ver (find_bucket (fst (run [OMb wb; OVer wb VEnabled; OPut wb wk cA CRNone])) wb) = Some VEnabled /\
+  Forall (fun o => match o with
+    | ODel b' k' v _ => b' = wb /\ k' = wk -> resolve_vref v <> Some (VId 2)
+    | OApp b' k' _ _ => ~ (b' = wb /\ k' = wk)
+    | OVer b' v => b' = wb -> v <> VUnset
+    | _ => True
+    end) [OPut wb wk cB CRNone; OVer wb VSuspended; OPut wb wk cC CRNone; ODel wb wk VRNone CRNone;
+          ODel wb wk (VROp 3) CRNone; OVer wb VEnabled; OCp wb wk (VROp 2) wb wk].
+Proof.
+  eexists. split; [vm_compute; reflexivity|]. split; [vm_compute; reflexivity|].
+  repeat constructor; cbn; try discriminate; intros _; discriminate.
+Qed.
+Example C02_ex_delete_marker_hyps :
+  snd (run [OMb wb; OVer wb VSuspended; OPut wb wk cA CRNone; ODel wb wk VRNone CRNone]) =
+  [ROk; ROk; RPut VNull (mk_md5 cA); RDel (Some (VId 3)) true].
+Proof. vm_compute. reflexivity. Qed.
